@@ -118,3 +118,39 @@ def r_C32c(root):
         if early:
             for pr in ("C32", "C11"): out.append(Finding(pr, "C32.c", R, "create_rrel_scope_provider", " ".join(ast.unparse(stmt_of(r)).split())[:100], "the flag is read before an RREL string is parsed: a provider registered as a string ('+p:...', '+m:...') is built without its flags, the same expression written in the grammar keeps them", witness="register_scope_providers({'*.*': '+p:a.b'}) against [T|FQN|+p:a.b] in the grammar"))
     return inst, out
+
+def r_C32de(root):
+    """C32.d  every ObjCrossRef is built with the scope provider, match rule name and target class of one and the same
+              attribute description: scope_provider=<A>.scope_provider, match_rule_name=<A>.match_rule_name, cls=<A>.cls,
+              unconditionally (a registered RREL string needs the match rule name just as a grammar RREL does).
+       C32.e  visit_assignment records the reference's RREL provider and match rule on the attribute whenever the right-hand
+              side is an object reference: the two stores depend on nothing else (in particular not on the attribute
+              already being a reference: a later assignment may carry the RREL)."""
+    L = "textx/lang.py"; out = []; inst = 0
+    pn = find_i(root, M, "parse_tree_to_objgraph.process_node"); fi = sem.info(pn)
+    ctor = [c for c in calls(pn, own=True) if callee_name(c) == "ObjCrossRef"]
+    if not ctor: raise AnalysisError("process_node: ObjCrossRef construction not found")
+    for c in ctor:
+        kw = {k.arg: k.value for k in c.keywords if k.arg}
+        pos = [a.arg for a in find(load(root, M), "ObjCrossRef.__init__").args.args[1:]]
+        for i_, a in enumerate(c.args):
+            if i_ < len(pos): kw[pos[i_]] = a
+        bases = set(); bad = None
+        for f in ("scope_provider", "match_rule_name", "cls"):
+            inst += 1
+            if f not in kw: bad = bad or (f, "missing"); continue
+            v = fi.expand(kw[f], at=c)
+            if isinstance(v, ast.Attribute) and v.attr == f: bases.add(ast.unparse(v.value))
+            else: bad = bad or (f, ast.unparse(v)[:60])
+        if bad is None and len(bases) != 1: bad = ("scope_provider / match_rule_name / cls", "taken from different attribute descriptions %s" % sorted(bases))
+        ob("C32", "C32.d", M, "parse_tree_to_objgraph.process_node", "ObjCrossRef fields from one attribute description (%s)" % sorted(bases), bad is None)
+        if bad: out.append(Finding("C32", "C32.d", M, "parse_tree_to_objgraph.process_node", "%s=%s" % bad, "the queued reference does not carry the %s of its attribute unchanged (%s): a provider registered as an RREL string cannot deduce the name delimiter / the reference resolves with another provider than the one written at it" % (bad[0], bad[1]), witness="register_scope_providers({'*.*': 'a.b'}) and a += reference list without RREL in the grammar"))
+    va = find_i(root, L, "TextXVisitor.visit_assignment"); fia = sem.info(va)
+    stores = [n for n in own_nodes(va) if isinstance(n, ast.Assign) and any(isinstance(tg, ast.Attribute) and tg.attr in ("scope_provider", "match_rule_name") for tg in n.targets)]
+    if len(stores) < 2: raise AnalysisError("visit_assignment: stores of scope_provider / match_rule_name on the attribute not found")
+    for st in stores:
+        inst += 1
+        extra = [(a, pol) for a, pol in fia.atoms_at(st) if "obj_ref" not in a and "isinstance(rhs_rule" not in a.replace(" ", "") and not a.replace(" ", "").startswith("isinstance(")]
+        ob("C32", "C32.e", L, "TextXVisitor.visit_assignment", " ".join(ast.unparse(st).split())[:70], not extra)
+        if extra: out.append(Finding("C32", "C32.e", L, "TextXVisitor.visit_assignment", " ".join(ast.unparse(st).split())[:70] + " under " + ("" if extra[0][1] else "not ") + extra[0][0][:50], "the RREL written at a reference is recorded on the attribute only under an extra condition: a later assignment to the same attribute that carries an RREL is resolved by a registered or the default provider instead", witness="'use' target=[Item] | 'pick' target=[Item|FQN|groups.items]"))
+    return inst, out
